@@ -193,7 +193,8 @@ DoRVisit(s, e) ==
       seen == Get(s.rv, e.p, <<>>)
       s1 == Vif(s, cur = 0, "C01", "range_visits_absent_key")
       s2 == Vif(s1, cur # 0 /\ o.v # e.v, "C01", "range_returns_value_not_latest")
-      s3 == Vif(s2, cur # 0 /\ o.dl # 0 /\ o.dl <= c.t, "C03", "range_served_after_deadline")
+      s3 == Vif(Vif(s2, cur # 0 /\ o.dl # 0 /\ o.dl <= c.t, "C03", "range_served_after_deadline"),
+                cur # 0 /\ o.dl # 0 /\ o.dl <= c.t, "C01", "range_visits_entry_that_get_reports_absent")
       s4 == Vif(s3, \E i \in DOMAIN seen : seen[i] = e.k, "C16", "range_visits_key_twice")
       s5 == Vif(s4, c.k > 0 /\ Len(seen) >= c.k, "C16", "range_continues_after_stop")
   IN [s5 EXCEPT !.rv = Put(s.rv, e.p, Append(seen, e.k))]
@@ -266,7 +267,9 @@ DoSinkOut(s, e) ==
 
 DoRemoveIn(s, e) ==
   LET s1 == Owed(s, e.p) IN
-  Vif(s1, e.reason = "EVICTED" /\ s.pool = 0 /\ s.press <= s.maxsize, "C06", "evicted_while_cost_within_maxsize")
+  Vif(Vif(s1, e.reason = "EVICTED" /\ s.pool = 0 /\ s.press <= s.maxsize, "C06", "evicted_while_cost_within_maxsize"),
+      \* C05: EVICTED is the reason of a removal under capacity pressure only
+      e.reason = "EVICTED" /\ s.pool = 0 /\ s.press <= s.maxsize, "C05", "evicted_reason_while_cost_within_maxsize")
 
 DoMapRemoved(s, e) ==
   LET o == En(s, e.e)
@@ -277,7 +280,9 @@ DoMapRemoved(s, e) ==
                        !.press = IF o.gone THEN s1.press ELSE s1.press - o.ub]
   IN IF e.deleted = 1
      THEN LET a == Vif(s2, cur # e.e, "C01", "removed_slot_of_another_entry")
-              b == Vif(a, e.reason = "EXPIRED" /\ (o.dl = 0 \/ o.dl > s.now), "C04", "expired_before_deadline")
+              b0 == Vif(a, e.reason = "EXPIRED" /\ (o.dl = 0 \/ o.dl > s.now), "C04", "expired_before_deadline")
+              \* C05: the reason is the true one - EXPIRED only for an entry whose deadline has passed
+              b == Vif(b0, e.reason = "EXPIRED" /\ (o.dl = 0 \/ o.dl > s.now), "C05", "expired_reason_for_entry_whose_deadline_has_not_passed")
           IN [b EXCEPT !.mp = [s.mp EXCEPT ![o.k] = IF cur = e.e THEN 0 ELSE @], !.una = @ \ {e.e},
                        !.pn = Put(b.pn, e.p, <<e.e, e.reason>>)]
      ELSE Vif(s2, cur = e.e /\ e.e # 0 /\ ~s.closed, "C01", "identity_removal_failed_on_present_entry")
